@@ -243,6 +243,39 @@ fn gen_msg(rng: &mut Rng, ndest: u8, npay: u8) -> MsgSpec {
 fn malformed_candidate(rng: &mut Rng, keys: &KeyPool, sorted: &[u8], base: &MSet) -> MSet {
     let mut s = base.clone();
     s.nonce = rng.bytes32();
+    if rng.chance(1, 6) {
+        // a long candidate (lengths around the powers of two up to 300) whose only defect, if any,
+        // sits in its last entries: the members beyond the usual sizes are checked like the first
+        let n = [41usize, 64, 65, 100, 127, 128, 129, 130, 200, 255, 256, 257, 300][rng.usize(13)];
+        while s.signers.len() < n {
+            let mut key = rng.bytes32();
+            key[0] = (s.signers.len() * 255 / n) as u8;
+            s.signers.push(MSigner { key, weight: 1 + rng.below(5) as u128, key_id: None });
+        }
+        s.signers.sort_by(|a, b| a.key.cmp(&b.key));
+        s.signers.dedup_by(|a, b| a.key == b.key);
+        if rng.chance(1, 2) {
+            s.threshold = 1 + rng.below(3) as u128;
+        }
+        let l = s.signers.len();
+        match rng.below(6) {
+            0 => s.signers[l - 1].weight = 0,
+            1 => s.signers[l - 1].key = s.signers[l - 2].key,
+            2 => s.signers.swap(l - 1, l - 2),
+            3 => {
+                s.signers[l - 1].weight = u128::MAX;
+                s.signers[l - 2].weight = u128::MAX;
+            }
+            4 => {
+                // the threshold is met only by counting every member, and exceeds that by one
+                if let Some(t) = s.total_weight() {
+                    s.threshold = t.saturating_add(1);
+                }
+            }
+            _ => {}
+        }
+        return s;
+    }
     match rng.below(13) {
         0 => s.signers.clear(),
         1 => {
